@@ -39,6 +39,10 @@ def all_binaries(flavours):
     return out
 
 
+def fuzz_binaries():
+    return [('h_flow', k, 'fuzz') for k in FLOW6]
+
+
 def runs(harness, kinds, flavour, nshards, cases, extra=None, prop=None, **kw):
     out = []
     for k in kinds:
@@ -456,3 +460,23 @@ _indep('C09', ['raster_queen', 'trimesh'], ['raster_queen', 'raster_rook_nc', 'p
 _indep('C12', ['trimesh', 'raster_queen'], ['raster_queen', 'profile', 'trimesh'], 'indep.kind.spl')
 _indep('C13', ['raster_queen', 'profile'], ['raster_queen', 'profile', 'trimesh'], 'indep.kind.spl')
 _indep('C14', ['raster_queen', 'raster_rook_nc'], ['raster_queen', 'raster_rook_nc'], 'indep.kind.adi')
+
+
+# ------------------------------------------------------------------------------------------------ coverage-guided campaigns
+# libFuzzer (clang 14, ASan+UBSan) mutates the decision stream of the h_flow generators: every byte string is a valid case
+# (grid, operator sequence, field / mask / base-level classes, 1-3 updates) judged by the same oracles. A campaign stops at
+# the first violation of its property (or sanitizer report), keeps the input as the replay and restarts behind it.
+def _fuzz(pid, quick_runs, thorough_runs, kinds_q=('raster_queen', 'profile'), prop=None):
+    q0, t0 = PLAN[pid]['quick'], PLAN[pid]['thorough']
+    pr = prop or pid
+    if quick_runs:
+        PLAN[pid]['quick'] = lambda seed: q0(seed) + runs('h_flow', list(kinds_q), 'fuzz', 1, quick_runs, prop=pr, case_timeout=120)
+    PLAN[pid]['thorough'] = lambda seed: t0(seed) + runs('h_flow', FLOW6, 'fuzz', 2, thorough_runs, prop=pr, case_timeout=300)
+    PLAN[pid]['rule'] += (' Plus coverage-guided campaigns (libFuzzer over the decision stream of the generators, ASan+UBSan; see '
+                          'coverage.fuzzing): the fuzzer steers the structural choices towards library code not yet executed.')
+
+
+_fuzz('C06', 2500, 40000)
+_fuzz('C08', 0, 40000, prop='all')
+for _p in ('C01', 'C02', 'C03', 'C04', 'C05', 'C19', 'C15'):
+    _fuzz(_p, 0, 25000)
